@@ -9,7 +9,7 @@ Local Arguments skipn : simpl never.
 Lemma base_step_decreases sc s l s1 :
   inv1 false s -> In (l, s1) (step false sc s) -> is_call l = false -> mu sc s1 < mu sc s.
 Proof.
-  intros I H Hn. unfold inv1, mu, mu_s, mu_c, mu_x, cancelled in *.
+  intros I H Hn. unfold inv1, mu, mu_s, mu_c, mu_x, mu_p, cancelled in *.
   dst s; cbn in *.
   split_step H; crunch H; cbn in *; subst; try discriminate.
   all: try (match goal with
